@@ -14,24 +14,23 @@ pub fn parse_proof(a: &[&str]) -> StarkProof {
     if a.len() != PROOF_TOKENS { panic!("HX-BAD-INPUT proof token count {}", a.len()) }
     let u = &a[CFG_TOKENS + PI_TOKENS..];
     let tw = |s: &str| TW { vector: VW { authentications: felts(s) } };
-    StarkProof {
-        config: parse_cfg(&a[0..CFG_TOKENS]),
-        public_input: parse_pi(&a[CFG_TOKENS..CFG_TOKENS + PI_TOKENS]),
-        unsent_commitment: StarkUnsentCommitment {
-            traces: swiftness_air::trace::UnsentCommitment { original: felt(u[0]), interaction: felt(u[1]) },
-            composition: felt(u[2]),
-            oods_values: felts(u[3]),
-            fri: swiftness_fri::types::UnsentCommitment { inner_layers: felts(u[4]), last_layer_coefficients: felts(u[5]) },
-            proof_of_work: swiftness_pow::pow::UnsentCommitment { nonce: u64h(u[6]) },
-        },
-        witness: StarkWitness {
-            traces_decommitment: swiftness_air::trace::Decommitment { original: TD { values: felts(u[7]) }, interaction: TD { values: felts(u[8]) } },
-            traces_witness: swiftness_air::trace::Witness { original: tw(u[9]), interaction: tw(u[10]) },
-            composition_decommitment: TD { values: felts(u[11]) },
-            composition_witness: tw(u[12]),
-            fri_witness: crate::ops_core::fri_witness(u[13]),
-        },
-    }
+    // (assignment on a base value rather than a struct literal: see parse_pi)
+    let mut p = fixture_proof();
+    p.config = parse_cfg(&a[0..CFG_TOKENS]);
+    p.public_input = parse_pi(&a[CFG_TOKENS..CFG_TOKENS + PI_TOKENS]);
+    let uc = &mut p.unsent_commitment;
+    uc.traces.original = felt(u[0]); uc.traces.interaction = felt(u[1]);
+    uc.composition = felt(u[2]);
+    uc.oods_values = felts(u[3]);
+    uc.fri.inner_layers = felts(u[4]); uc.fri.last_layer_coefficients = felts(u[5]);
+    uc.proof_of_work.nonce = u64h(u[6]);
+    let w = &mut p.witness;
+    w.traces_decommitment.original = TD { values: felts(u[7]) }; w.traces_decommitment.interaction = TD { values: felts(u[8]) };
+    w.traces_witness.original = tw(u[9]); w.traces_witness.interaction = tw(u[10]);
+    w.composition_decommitment = TD { values: felts(u[11]) };
+    w.composition_witness = tw(u[12]);
+    w.fri_witness = crate::ops_core::fri_witness(u[13]);
+    p
 }
 
 pub fn fmt_proof(p: &StarkProof) -> String {
